@@ -1,6 +1,7 @@
 mod catalogue;
 mod catalogue_gen;
 mod common;
+mod crypto;
 mod conc;
 mod consumers;
 mod crash;
@@ -30,6 +31,7 @@ fn arg_after(args: &[String], flag: &str) -> Option<String> {
 fn dispatch_worker(wa: WorkerArgs) -> i32 {
     match wa.params.check.as_str() {
         "partlog" => worker_main(&partlog::Partlog, wa),
+        "crypto" => worker_main(&crypto::Crypto, wa),
         "catalogue" => worker_main(&catalogue::Catalogue, wa),
         "wire" => worker_main(&wire::Wire, wa),
         "creds" => worker_main(&creds::Creds, wa),
@@ -55,6 +57,7 @@ fn dispatch_worker(wa: WorkerArgs) -> i32 {
 fn dispatch_replay(check: &str, case: &Value, p: &Params) -> common::Outcome {
     match check {
         "partlog" => replay_case(&partlog::Partlog, case, p),
+        "crypto" => replay_case(&crypto::Crypto, case, p),
         "catalogue" => replay_case(&catalogue::Catalogue, case, p),
         "wire" => replay_case(&wire::Wire, case, p),
         "creds" => replay_case(&creds::Creds, case, p),
